@@ -61,6 +61,7 @@ func run(s *core.Shard) {
 	}
 	i := 0
 	next := func() (int, bool) { i++; return i, s.Mine(i) }
+	k.hand(5)
 
 	// (a) saturated models
 	scale := 1
